@@ -238,3 +238,11 @@ Proof.
   cbv zeta. repeat split; try (vm_compute; reflexivity).
   repeat constructor. intros c H. vm_compute in H. discriminate H.
 Qed.
+
+(* Every remaining statement of this file, so that none is left unaudited. *)
+Print Assumptions C18_condense_one_output.
+Print Assumptions C18_across_count.
+Print Assumptions C18_across_ith.
+Print Assumptions C18_across_surplus.
+Print Assumptions C18_across_error_stops.
+Print Assumptions C18_docs_unloaded.
